@@ -1367,6 +1367,7 @@ def run(ctx):
     check_memo_keys(ctx)
     check_memo_key_covers_params(ctx)
     check_memo_option_reads(ctx)
+    check_reindent_refresh(ctx)
 
 
 def check_memo_key_covers_params(ctx):
@@ -1545,3 +1546,90 @@ def check_memo_option_reads(ctx):
                           f'served to callers with another default until the node is flushed', x.lineno, sample={'function': fi.key, 'key': norm(t.slice, 50)})
     if n < 1:
         raise AnalysisError('no memo value that depends on a default option read found (own_lines expected)')
+
+
+def check_reindent_refresh(ctx):
+    """R2.11 — the value of a multi-line docstring depends on the indentation of its continuation lines.  A function that re-indents the
+    indentable lines of a live tree (it asks `_get_indentable_lns` which lines to touch - docstring lines are among them when `docstr` says
+    so - and rewrites them in the line list) changes those values in the source; `Constant.value`, and with it `get_docstr()`, must be
+    re-evaluated from the source before the edit returns (`_reparse_docstr_Constants`).  Decided as a must-pass obligation that may be
+    discharged by the re-indenting function itself or by its callers: a function that leaves the obligation open hands it to every caller;
+    it is reported where no caller is left to take it."""
+    from ..cfg import CFG, subnodes
+    ctx.rule('R2.11', 'every path from a re-indentation of indentable (docstring-bearing) lines of a live tree to the end of the edit passes '
+                      'the re-evaluation of docstring values (in the re-indenting function or in every caller chain)', 3)
+    REFRESH = '_reparse_docstr_Constants'
+    if not ctx.repo.find_funcs('fst_core', REFRESH):
+        raise AnalysisError(f'fst_core.{REFRESH} not found (anchor vanished)')
+    allf = [fi for fi in ctx.repo.all_funcs() if not isinstance(fi.node, ast.Lambda)]
+
+    def is_line_store(x):
+        if isinstance(x, ast.Assign):
+            for tg in x.targets:
+                if isinstance(tg, ast.Subscript) and isinstance(tg.value, ast.Name) and tg.value.id in ('lines', '_lines'):
+                    return True
+                if isinstance(tg, ast.Subscript) and isinstance(tg.value, ast.Attribute) and tg.value.attr == '_lines':
+                    return True
+        return False
+    base = []
+    for fi in allf:
+        body = list(walk_no_nested(fi.node))
+        live = {tg.id for x in body if isinstance(x, ast.Assign) and isinstance(x.value, ast.Attribute) and x.value.attr == '_lines'
+                for tg in x.targets if isinstance(tg, ast.Name)}       # `lines = root._lines`: the live list, not a copy / a fresh list of source
+        def on_live(x):
+            return any(isinstance(tg, ast.Subscript) and ((isinstance(tg.value, ast.Name) and tg.value.id in live) or
+                                                          (isinstance(tg.value, ast.Attribute) and tg.value.attr == '_lines')) for tg in x.targets)
+        if any(isinstance(x, ast.Call) and call_name(x) == '_get_indentable_lns' for x in body) and \
+                any(is_line_store(x) and on_live(x) for x in body) and 'docstr' in fi.params():
+            base.append(fi)
+    if len(base) < 3:
+        raise AnalysisError(f'only {len(base)} functions re-indent indentable lines in place (>= 3 expected: indent / dedent / redent)')
+
+    def escapes(fi, is_start):
+        """A statement satisfying is_start from which the function exit is reachable on normal edges without passing a refresh call (None if none)."""
+        cfg = CFG(fi.node)
+        rep = {n.id for n in cfg.nodes if any(isinstance(x, ast.Call) and call_name(x) == REFRESH for x in subnodes(cfg, n))}
+        for n in cfg.nodes:
+            if n.id in rep or not any(is_start(x) for x in subnodes(cfg, n)):
+                continue
+            r = cfg.reachable(n.id, lambda a, lab, s: lab != 'exc' and (a.id == n.id or a.id not in rep))
+            if cfg.exit in r:
+                return n
+        return None
+    needy = {}      # function name -> (fi, how the obligation arose)
+    for fi in base:
+        n = escapes(fi, is_line_store)
+        if n is None:
+            ctx.ok('R2.11', f'{fi.module}|{fi.qualname}|refreshes itself', sample={'function': fi.key})
+        else:
+            needy[fi.name] = (fi, f'{fi.qualname}() rewrites indentable lines (line {n.lineno}) and can return without {REFRESH}()')
+    changed = True
+    rounds = 0
+    while changed and needy and rounds < 8:
+        changed = False
+        rounds += 1
+        for fi in allf:
+            if fi.name in needy:
+                continue
+            # `docstr=False` at the call: docstring lines are not among the indentable lines, no value changes, nothing to refresh
+            n = escapes(fi, lambda x: isinstance(x, ast.Call) and call_name(x) in needy and
+                        not any(k.arg == 'docstr' and isinstance(k.value, ast.Constant) and k.value.value is False for k in x.keywords))
+            if n is not None:
+                g = next(call_name(x) for x in ast.walk(n.ast) if isinstance(x, ast.Call) and call_name(x) in needy) if n.ast is not None else '?'
+                needy[fi.name] = (fi, f'{fi.qualname}() calls {g}() (line {n.lineno}) and can return without {REFRESH}(); ' + needy[g][1])
+                changed = True
+    called = set()
+    for fi in allf:
+        for x in walk_no_nested(fi.node):
+            if isinstance(x, ast.Call) and call_name(x) in needy and call_name(x) != fi.name and \
+                    not any(k.arg == 'docstr' and isinstance(k.value, ast.Constant) and k.value.value is False for k in x.keywords):
+                called.add(call_name(x))
+    called_any = {call_name(x) for fi in allf for x in walk_no_nested(fi.node) if isinstance(x, ast.Call) and call_name(x) in needy and call_name(x) != fi.name}
+    for name, (fi, how) in sorted(needy.items()):
+        if name in called or name in called_any:       # called_any only: every caller passes docstr=False, the obligation is void
+            continue       # some caller exists and every caller was examined: the open ends are reported at the top of the chains
+        ctx.bad('R2.11', fi.module, fi.qualname, f're-indentation without docstring refresh via {fi.qualname}',
+                f'docstring values are left stale: {how}. A multi-line docstring inside the re-indented lines keeps its old `Constant.value`; '
+                f'get_docstr() and a fresh parse of the same source disagree', fi.lineno)
+    ctx.extra['reindent_functions'] = sorted(fi.key for fi in base)
+    ctx.extra['open_refresh_obligations'] = sorted(needy)
